@@ -606,3 +606,41 @@ func DagHistories(k, maxLen int) [][]Op {
 	rec(nil, map[[2]int]bool{})
 	return out
 }
+
+// RunEraseTwin replays a history on the cutoff-free twin (every CutoffEqual an identity map,
+// every VarEqual a plain Var) and compares observer values after every successful pass: the
+// metamorphic oracle of C11, evaluated on the implementation.
+func RunEraseTwin(orig *Exec) (findings []Finding) {
+	twin := NewExec(orig.MaxHeight)
+	twin.EraseEq = true
+	for i, op := range orig.Ops {
+		if !twin.Valid(op) {
+			return
+		}
+		s := twin.Do(op)
+		ref := orig.Samples[i]
+		if s.Crashed || ref.Crashed {
+			return
+		}
+		if s.Next != ref.Next {
+			// the two runs have created different numbers of nodes (a VarEqual no-op write spares a
+			// bind rebuild that the plain Var performs): later operations name nodes by creation
+			// index, so the histories are no longer the same program. Inconclusive from here on.
+			return
+		}
+		isPass := op.K == "Stabilize" || op.K == "StabilizeCancelled"
+		if s.Class != ref.Class {
+			if isPass && (s.Class == "XOk" || ref.Class == "XOk") && len(op.Plan) == 0 {
+				findings = append(findings, Finding{Prop: "C11", Kind: "twin-result-differs", Op: i + 1,
+					What: fmt.Sprintf("%s returns %s with equality cutoffs / VarEqual and %s without", op.String(), ref.Class, s.Class)})
+			}
+			return
+		}
+		if isPass && s.Class == "XOk" && fmt.Sprint(s.ObsVals) != fmt.Sprint(ref.ObsVals) {
+			findings = append(findings, Finding{Prop: "C11", Kind: "twin-values-differ", Op: i + 1,
+				What: fmt.Sprintf("after %s (operation %d) observers read %v with CutoffEqual/VarEqual and %v in the twin without them", op.String(), i, ref.ObsVals, s.ObsVals)})
+			return
+		}
+	}
+	return
+}
